@@ -452,6 +452,11 @@ def make_problem(spec) -> Problem:
                     gdes[i] = -abs(gdes[i]) - 0.1
         A, extra = meta["A"], meta["extra_grad"]
         meta["b"][:] = A @ x0 + extra(x0) - gdes
+    if "geometry_from" in spec:
+        # same box and start as another problem (different objective): two runs that visit identical points
+        other = make_problem(spec["geometry_from"])
+        if other.n == n:
+            lb, ub, x0 = other.lb.copy(), other.ub.copy(), other.x0.copy()
     return Problem(dict(spec), n, f, g, lb, ub, x0, meta)
 
 
